@@ -613,7 +613,13 @@ impl AgentStatusSharedState {
                 &format!("{:?}", module),
                 logger::AGENT_LOGGER_KEY,
             );
-            message = format!("{}...", &message[0..MAX_STATUS_MESSAGE_LENGTH]);
+            // cut at a character boundary: slicing at a fixed byte offset panics
+            // when the offset falls inside a multi-byte character
+            let mut end = MAX_STATUS_MESSAGE_LENGTH;
+            while !message.is_char_boundary(end) {
+                end -= 1;
+            }
+            message = format!("{}...", &message[0..end]);
         }
 
         ProxyAgentDetailStatus {
